@@ -288,6 +288,7 @@ impl<'a> Laws<'a> {
             self.rep.nontrivial(format!("{}:{}", ty, shape));
         }
         self.rep.count(&format!("codec:{}", ty), 1);
+        crate::crashlabel::set(&format!("{} decode(encode(v)) / concatenation, shape {}", ty, shape));
         let ea = a.encode_vec();
         let res = std::panic::catch_unwind(std::panic::AssertUnwindSafe(|| T::decode(&ea, 0)));
         match res {
